@@ -80,4 +80,47 @@ theorem C03_from_toodee_invalid (m : Mode) (t : TD α) (h : t.Inv) (s e : Nat ×
   have hd := calcViewDims_panic m s e t.numCols t.numRows t.numCols hbad
   simp [VW.fromTooDee, hd]
 
+/-- the window the oracle computes (`specView`, Spec/OpsSpec.lean) is exactly what the view constructors return -/
+theorem C03_spec_view (m : Mode) (v : VW) (n : Nat) (h : v.Inv n) (s e : Nat × Nat)
+    (hw : s.1 < WORD ∧ s.2 < WORD ∧ e.1 < WORD ∧ e.2 < WORD) :
+    (∀ v', specView v s e = some v' → v.view m s e = .ok v' ∧ v.viewChecked m s e = .ok v') ∧
+    (specView v s e = none → v.view m s e = .error .panic ∧ v.viewChecked m s e = .error .panic) := by
+  by_cases hok : s.1 ≤ e.1 ∧ s.2 ≤ e.2 ∧ e.1 ≤ v.numCols ∧ e.2 ≤ v.numRows
+  · have hs : s.1 ≤ e.1 ∧ s.2 ≤ e.2 := ⟨hok.1, hok.2.1⟩
+    have he : e.1 ≤ v.numCols ∧ e.2 ≤ v.numRows := hok.2.2
+    refine ⟨?_, fun hn => by simp [specView, hok] at hn; split at hn <;> cases hn⟩
+    intro v' hv'
+    obtain ⟨hstride, hzero, hlen, hinside, hword, hsw⟩ := h
+    by_cases h0 : e.1 - s.1 = 0 ∨ e.2 - s.2 = 0
+    · have hd := calcViewDims_empty m s e v.numCols v.numRows v.stride hs he hstride h0
+      have : v' = ⟨⟨v.data.off + 0, 0⟩, 0, 0, v.stride⟩ := by
+        simp only [specView, if_pos hok, viewSize, if_pos h0] at hv'
+        simpa using hv'.symm
+      subst this
+      constructor
+      · simp [VW.view, hd, Win.getRange]
+      · simp [VW.viewChecked, hd, Win.indexRange]
+    · have hs' : s.1 < e.1 ∧ s.2 < e.2 := by omega
+      have hR : ¬ v.numRows = 0 := by omega
+      rw [if_neg hR] at hlen
+      have hle : (e.2 - 1) * v.stride ≤ (v.numRows - 1) * v.stride :=
+        Nat.mul_le_mul_right _ (by omega)
+      have hend := view_end_eq v.stride s.1 e.1 hs.1 hs'.2
+      have hd := calcViewDims_nonempty m s e v.numCols v.numRows v.stride hs' he hstride (by omega)
+      have hg1 : s.2 * v.stride + s.1 ≤
+          s.2 * v.stride + s.1 + ((e.2 - s.2 - 1) * v.stride + (e.1 - s.1)) := Nat.le_add_right _ _
+      have hg2 : s.2 * v.stride + s.1 + ((e.2 - s.2 - 1) * v.stride + (e.1 - s.1)) ≤ v.data.len := by
+        omega
+      have hne : ¬ e.1 - s.1 = 0 := by omega
+      have : v' = ⟨⟨v.data.off + (s.2 * v.stride + s.1), (e.2 - s.2 - 1) * v.stride + (e.1 - s.1)⟩,
+          e.1 - s.1, e.2 - s.2, v.stride⟩ := by
+        simp only [specView, if_pos hok, viewSize, if_neg h0, if_neg hne, VW.pos] at hv'
+        rw [← Option.some.inj hv', Nat.add_assoc]
+      subst this
+      constructor
+      · simp [VW.view, hd, Win.getRange_ok _ hg1 hg2]
+      · simp [VW.viewChecked, hd, Win.indexRange_ok _ hg1 hg2]
+  · refine ⟨fun v' hv' => by simp [specView, hok] at hv', fun _ => ?_⟩
+    exact C03_view_invalid m v n h s e hw (fun hh => hok ⟨hh.1.1, hh.1.2, hh.2.1, hh.2.2⟩)
+
 end Toodee
